@@ -1,10 +1,12 @@
 #!/bin/bash
-# usage: run_all_seeds.sh [tier]  -- official protocol for every seed under /verif/seeded; prints one line per seed
+# usage: run_all_seeds.sh [tier]  -- official protocol for every seed under /verif/seeded (git -C /repo apply; check;
+# git -C /repo checkout -- .); prints one line per seed and records the outcome in the seed's meta.json (check_run)
 tier=${1:-quick}
 cd /verif
 for d in seeded/*/; do
   name=$(basename $d)
   prop=$(python3 -c "import json;print(json.load(open('$d/meta.json'))['property'])")
-  out=$(tools/dev/run_seed.sh $name $prop $tier 2>&1 | head -1)
-  echo "$out"
+  tools/dev/run_seed.sh $name $prop $tier > /verif/.work/seedrun-last.txt 2>&1
+  head -1 /verif/.work/seedrun-last.txt
+  python3 tools/dev/record_seed_run.py "$d/meta.json" "$name" "$prop" "$tier" /verif/.work/seedrun-last.txt
 done
